@@ -305,6 +305,22 @@ def eval_numtree(rec, i):
     ok, plabels = guarded("PDFPage.label", lambda: [p.label for p in OB.PDFPage.create_pages(OB.open_doc(data, caching=caching_of(i)))], findings, detail)
     if ok and plabels != want and not ("S" in meta["deep"] and plabels == prefix_only):
         findings.append(("numtree:page.label", "PDFPage.label gives %s, expected %s: %s" % (plabels, want, detail)))
+    if i % 3 == 0:
+        # settings.STRICT = True: `values` checks the order instead of sorting - a valid tree reads the same
+        from pdfminer import settings
+        was = settings.STRICT
+        settings.STRICT = True
+        try:
+            ok, svals = guarded("NumberTree.values@STRICT", lambda: OB.NumberTree(OB.open_doc(data, caching=caching_of(i)).catalog["PageLabels"]).values,
+                                findings, detail + " settings.STRICT=True")
+            if ok and [k for k, _ in svals] != rec["ref"]:
+                findings.append(("numtree:values@STRICT", "NumberTree.values has keys %s under STRICT, the tree holds %s: %s" % ([k for k, _ in svals], rec["ref"], detail)))
+            if rec["ref"] and rec["ref"][0] == 0:
+                ok, slabels = guarded("get_page_labels@STRICT", lambda: OB.page_labels(OB.open_doc(data, caching=caching_of(i)), npages), findings, detail + " settings.STRICT=True")
+                if ok and slabels != want and not ("S" in meta["deep"] and slabels == prefix_only):
+                    findings.append(("numtree:labels@STRICT", "get_page_labels() gives %s under STRICT, expected %s: %s" % (slabels, want, detail)))
+        finally:
+            settings.STRICT = was
     sample = {"number_tree": tree, "variant": variant, "expected_keys": rec["ref"], "observed_keys": keys, "labels": labels} if i % 97 == 0 else None
     return findings, drift, 1, not tree["leaf"], sample
 
@@ -341,6 +357,28 @@ def eval_labels(rec, i):
         ok, plabels = guarded("PDFPage.label", lambda: [p.label for p in OB.PDFPage.create_pages(OB.open_doc(data, caching=caching_of(i)))], findings, detail)
         if ok and plabels != labels:
             findings.append(("label:page.label", "PDFPage.label gives %s, get_page_labels() %s: %s" % (plabels, labels, detail)))
+    clean = not fired and not [f for f in findings]
+    if clean and i % 3 == 0 and vals and vals[0]["start"] == 0:
+        # the same labels with settings.STRICT = True (a tree that begins at 0, with /Kids in variants 1 and 2)
+        from pdfminer import settings
+        was = settings.STRICT
+        settings.STRICT = True
+        try:
+            ok, slabels = guarded("get_page_labels@STRICT", lambda: OB.page_labels(OB.open_doc(data, caching=caching_of(i)), P), findings, detail + " settings.STRICT=True")
+            if ok and slabels != ref:
+                findings.append(("label:strict", "get_page_labels() gives %s under settings.STRICT, expected %s (%s)" % (slabels, ref, detail)))
+        finally:
+            settings.STRICT = was
+    if clean and i % 4 == 1:
+        # the page tree cannot be walked (damaged /Pages root): create_pages recovers the pages by scanning the
+        # cross-reference table; the k-th page it produces carries label(k) all the same
+        mode = ("missing", "untyped", "other-type")[(i // 4) % 3]
+        bdata, _ = ND.labels_doc(vals, P, variant, mask, broken_root=mode)
+        ok, rec_labels = guarded("PDFPage.create_pages", lambda: [p.label for p in OB.PDFPage.create_pages(OB.open_doc(bdata, caching=caching_of(i)))],
+                                 findings, detail + " /Pages root %s" % mode)
+        if ok and rec_labels != ref:
+            findings.append(("label:recovered-pages", "with the /Pages root %s the %d recovered pages are labelled %s, label(k) of the k-th page is %s (%s)"
+                             % (mode, len(rec_labels), rec_labels, ref, detail)))
     nontrivial = any(r["style"] != "none" or r["prefix"] for r in vals)
     sample = {"ranges": vals, "variant": variant, "expected": ref[:12], "observed": (labels or [])[:12]} if i % 397 == 0 else None
     return findings, drift, 1, nontrivial, sample
